@@ -87,6 +87,25 @@ pub fn word(p: &[char], s: &[char]) -> bool {
     false
 }
 
+/// "The text contains the word": `w` occurs in `s` as literal text between word boundaries (both
+/// already lower-cased); the empty word only in the empty text.
+pub fn contains(w: &[char], s: &[char]) -> bool {
+    if w.is_empty() {
+        return s.is_empty();
+    }
+    if w.len() > s.len() {
+        return false;
+    }
+    (0..=s.len() - w.len()).any(|i| {
+        let j = i + w.len();
+        s[i..j] == *w && boundary(s, i) && boundary(s, j)
+    })
+}
+
+pub fn ref_contains(w: &str, s: &str) -> bool {
+    contains(&lower(w), &lower(s))
+}
+
 pub fn ref_value(p: &str, s: &str) -> bool {
     glob(&lower(p), &lower(s))
 }
